@@ -491,6 +491,20 @@ OBLIGATIONS.append(k2("rc.removal_poll_minimal", f"{RC}rc_removal_poll_two_entit
                       "reports both removals; cached buffers pre-sized",
                       "one poll reacts to EVERY reported removal, each reaction carrying its entity and that entity's own removal reactor"))
 
+OBLIGATIONS.append(k2("rc.removal_poll_same_entity_twice", f"{RC}rc_removal_poll_same_entity_twice", ["C08"],
+                      ["ReactCache::schedule_removal_reactions", "collect_component_removals", "schedule_entity_reaction_impl", "syscall"],
+                      RC_SRC + ["src/ecs/syscall.rs"],
+                      "1 entity with one entity-scoped removal reactor; the environment reports two removals of it in one poll window "
+                      "(remove, re-insert, remove)",
+                      "each removal is reacted to: two removals of one entity between polls are two reactions carrying that entity"))
+OBLIGATIONS.append(k2("entry.broadcast", _k2h("react::react_commands", "entry_broadcast_reaches_exactly_its_listeners"), ["C14", "C01", "C03"],
+                      ["ReactCommands::broadcast", "ReactCommandsExt::syscall_with_validation (deferred)", "syscall_with_validation", "validate_rc",
+                       "ReactCache::schedule_broadcast_reaction"],
+                      ["src/react/react_commands.rs", "src/ecs/syscall.rs", "src/react/react_cache.rs"],
+                      "two listeners of event type A in the world's ReactCache; the broadcast is symbolically of type A or of an unlistened type B; "
+                      "payload any u8; the deferred syscall closure is applied at once (CmdMode::Immediate)",
+                      "the public trigger call, through its deferred syscall, ends in exactly one dispatch: one reaction per listener of that "
+                      "type in registration order sharing one data entity with the event's own payload; nothing for another type"))
 OBLIGATIONS += [
     k2("rc.entity_event_dead_typewide", f"{RC}rc_entity_event_dead_1_1_0", ["C18", "C01", "C05"],
        ["ReactCache::schedule_entity_event_reaction"], RC_SRC,
@@ -773,7 +787,7 @@ _QUICK_ONLY_FOR = {
     "cmd.apply_reaction_entity": ["C03"], "cmd.apply_reaction_despawn": ["C08"], "cmd.apply_reaction_entity_event": ["C16"],
     "cmd.apply_reaction_broadcast": ["C05", "C18"],
     "cmd.pair_broadcast_event": ["C05"], "cmd.pair_system_event": ["C04"], "cmd.pair_despawn_reaction": ["C07"],
-    "rc.register_broadcast_2_1": ["C01"], "rc.register_mutation_1_1_1": ["C15"], "rc.register_despawn_by_entity": ["C08"],
+    "rc.register_broadcast_2_1": ["C01"], "rc.register_mutation_1_1_1": ["C15"], "rc.register_despawn_by_entity": ["C08"], "entry.broadcast": ["C14"],
     "register.two_triggers": ["C15"], "register.empty_bundle": ["C15"], "token.every_member": ["C06", "C15", "C16"],
 }
 
